@@ -182,8 +182,8 @@ def generate(ctx, unrepaired):
     quick = ctx.quick
     behs = []
     fix_now = [f for f in ALL_FIX if f not in unrepaired]
-    depths = ({"macct": 7, "val": 6, "recs": 6, "disk": 9, "slots": 9, "old": 8, "recs2": 8} if quick
-              else {"macct": 8, "val": 7, "recs": 7, "disk": 11, "slots": 10, "old": 9, "recs2": 9})
+    depths = ({"macct": 7, "val": 6, "recs": 6, "disk": 9, "slots": 9, "old": 8, "recs2": 8, "reset": 8} if quick
+              else {"macct": 8, "val": 7, "recs": 7, "disk": 11, "slots": 10, "old": 9, "recs2": 9, "reset": 9})
     ok = True
     for alpha, d in depths.items():
         m = ctx.tlc_must("StateCommit", M_CFG % (d, alpha, fixset(ALL_FIX)), name="M_design_" + alpha, timeout=2400, coverage=not quick)
@@ -212,8 +212,8 @@ def generate(ctx, unrepaired):
     ncex = len(behs)
     # "disk" and "deleg2" start from a seeded state: a prelude of 2 / 5 operations is the beginning of every behaviour
     # "slots", "old", "recs2": a prelude of 3 / 2 / 3 operations executed by the model itself
-    gd = ({"acct": 4, "val": 4, "recs": 4, "disk": 2 + 5, "deleg2": 5 + 3, "slots": 3 + 4, "old": 2 + 4, "recs2": 3 + 3, "blind": 3 + 3} if quick
-          else {"acct": 5, "val": 5, "recs": 5, "disk": 2 + 6, "deleg2": 5 + 4, "slots": 3 + 5, "old": 2 + 5, "recs2": 3 + 5, "blind": 3 + 5})
+    gd = ({"acct": 4, "val": 4, "recs": 4, "disk": 2 + 5, "deleg2": 5 + 3, "slots": 3 + 4, "old": 2 + 4, "recs2": 3 + 3, "blind": 3 + 3, "reset": 3 + 4} if quick
+          else {"acct": 5, "val": 5, "recs": 5, "disk": 2 + 6, "deleg2": 5 + 4, "slots": 3 + 5, "old": 2 + 5, "recs2": 3 + 5, "blind": 3 + 5, "reset": 3 + 5})
     for alpha, d in gd.items():
         g = ctx.tlc_must("StateCommit", G_CFG % (d, alpha, fixset(fix_now)), name="G1_%s_%d" % (alpha, d), timeout=2400)
         behs += [v["h"] for v in g.printed if isinstance(v, dict) and v.get("kind") == "B"]
